@@ -280,4 +280,44 @@ unique value, canon contents at the folding peer) and the lock-step corresponden
 histories with recursive folds. -/
 def C13_full_note : Unit := ()
 
+/-! ## stream maps -/
+
+/-- `ap` into a stream map is `ap` into the underlying stream of the key-value object (`StreamMap::insert`) -/
+theorem addStreamMapValue_eq (c : Ctx) (k : Lens.StreamMapKey) (v : ValueAggregate) (name : String) (g : Generation) (pos : Nat) :
+    c.addStreamMapValue k v name g pos =
+      c.addStreamValue (ValueAggregate.new (fromKeyValue k v.result) v.tetraplet v.tracePos v.provenance) name g pos := rfl
+
+/-- the object `from_key_value` builds has exactly the two members `key` and `value` -/
+theorem fromKeyValue_fields (k : Lens.StreamMapKey) (v : JVal) :
+    fromKeyValue k v = .obj [("key", k.toJVal), ("value", v)] := by
+  simp [fromKeyValue, JVal.mkObj, insertSorted, strLt, Gen.streamMapValueFieldName, Gen.streamMapKeyFieldName]
+
+/-- a key in the form the executor produces it (`resolve_key_if_needed`: a string, an `i64`, or a `u64` beyond `i64`) -/
+def KeyWf (k : Lens.StreamMapKey) : Prop := Lens.StreamMapKey.fromValue k.toJVal = some k
+
+example : KeyWf (.str "k") := rfl
+example : KeyWf (.i64 (-3)) := by unfold KeyWf; decide
+
+/-- **An accepted `ap` into a map adds exactly one `{key, value}` entry**: the stream under the map afterwards holds
+that one pair plus exactly what it held before (as a multiset); the pair is the object with the two members `key`
+(the typed key as JSON) and `value` (the value's JSON), carrying tetraplet, position and provenance of the value;
+and a later `canon` files the pair under exactly this key with exactly this value (`from_kvpair_owned`,
+`get_value_from_obj`). -/
+theorem C13_ap_map_adds_exactly_one_pair (s s' : Stream) (k : Lens.StreamMapKey) (v : ValueAggregate) (g : Generation)
+    (h : s.addValue (ValueAggregate.new (fromKeyValue k v.result) v.tetraplet v.tracePos v.provenance) g = .ok s') :
+    List.Perm s'.all ((ValueAggregate.new (fromKeyValue k v.result) v.tetraplet v.tracePos v.provenance) :: s.all) ∧
+    s'.totalSize = s.totalSize + 1 ∧
+    (ValueAggregate.new (fromKeyValue k v.result) v.tetraplet v.tracePos v.provenance).result = .obj [("key", k.toJVal), ("value", v.result)] ∧
+    (KeyWf k → Lens.StreamMapKey.fromKvpairOwned (fromKeyValue k v.result) = some k) ∧
+    Lens.getValueFromObj (fromKeyValue k v.result) = .ok v.result := by
+  obtain ⟨h1, h2⟩ := C13_add_value_adds_exactly_one s s' _ g h
+  refine ⟨h1, h2, ?_, ?_, ?_⟩
+  · cases hp : v.provenance <;> simp [ValueAggregate.new, fromKeyValue_fields]
+  · intro hk
+    rw [fromKeyValue_fields]
+    simp [Lens.StreamMapKey.fromKvpairOwned, JVal.getField, Lens.keyFieldName, Gen.streamMapKeyFieldName]
+    exact hk
+  · rw [fromKeyValue_fields]
+    simp [Lens.getValueFromObj, JVal.getField, Lens.valueFieldName, Gen.streamMapValueFieldName]
+
 end AquaProps.C13
